@@ -33,6 +33,9 @@ def scaler_cases(ctx):
         scale = float(10.0 ** rng.integers(-6, 7))
         X = rng.standard_normal((n, nlat, nlon)) * scale + rng.standard_normal((nlat, nlon)) * scale * 5
         lats = np.sort(rng.uniform(-89, 89, nlat))
+        if cl and rng.random() < 0.4:
+            lats[0 if rng.random() < 0.5 else -1] = -90.0 if lats[0] < 0 and rng.random() < 0.5 else 90.0
+            lats = np.sort(lats)
         da = xr.DataArray(X, dims=("time", "lat", "lon"), coords={"time": np.arange(n), "lat": lats, "lon": np.arange(nlon)})
         wd = None
         if w:
@@ -136,7 +139,7 @@ def run_models(ctx):
         got = rec.transpose(*da.dims).values
         # rank-deficient + standardize excluded by the generator; centred data of rank < min(n,p) still reconstructs
         full_rank_ok = not (cfg["center"] and n <= p and rank == n) or True
-        if not valid_eq(got, want, scale, 1e-7):
+        if not valid_eq(got, want, scale, 1e-5 if cfg.get("pole") else 1e-7):   # a pole row is divided by 7.8e-9 on the way back
             err = float(np.abs(got - want).max())
             ctx.violation("C03:full-reconstruction:%s:center=%s" % (cfg["cls"], cfg["center"]),
                           "%s(center=%s, standardize=%s): inverse_transform(scores()) with all modes differs from the fitted data by %.3g (scale %.3g)"
